@@ -250,3 +250,26 @@ Proof.
   { cbn [junk_deadline]. unfold timer_after_reply. rewrite H. vm_compute. reflexivity. }
   split; [exact E|]. intros Hk. rewrite (Hk 60 0 _) in E. discriminate.
 Qed.
+
+(* new requests on the connection do not move a deadline that is already armed *)
+Lemma new_requests_keep_deadline timeout start arrivals :
+  req_deadline timeout start arrivals = start + timeout.
+Proof.
+  induction arrivals as [|t rest IH]; cbn [req_deadline]; [reflexivity|].
+  destruct (run_timeout_fires (t - start) timeout); [reflexivity|].
+  unfold timer_after_request. cbv [insreq_arms_timer_only_if_none]. exact IH.
+Qed.
+
+Lemma first_request_arms_timer t : timer_after_request None t = Some t.
+Proof. unfold timer_after_request. destruct insreq_arms_timer_only_if_none; reflexivity. Qed.
+
+Example ex_req_deadline : req_deadline 200 0 [60; 120; 180; 240; 300] = 200.
+Proof. vm_compute. reflexivity. Qed.
+
+(* now that the two fixes are in /repo the conditional statements hold outright:
+   reverting either fix flips the T1 boolean and breaks these proofs *)
+Lemma response_timeout_respected_now : response_timeout_respected.
+Proof. apply response_timeout_respected_if_assigned. reflexivity. Qed.
+
+Lemma junk_keeps_deadline_now : junk_keeps_deadline.
+Proof. apply junk_keeps_deadline_if_known_only. reflexivity. Qed.
